@@ -31,10 +31,18 @@ def main():
     os.makedirs(out_dir, exist_ok=True)
     meta = {"id": sid, "property": prop, "source": sdir, "ran": []}
     # --- 1. independent confirmation in a scratch worktree
-    wt = "/tmp/seedcheck-%s" % sid
-    sh("git -C /repo worktree remove --force %s" % wt)
-    rc, o = sh("git -C /repo worktree add --detach %s HEAD" % wt)
-    shutil.copy("/repo/Cargo.lock", wt)
+    # the scratch worktree the change was written in (already built) — reset to HEAD first
+    wt = os.path.dirname(os.path.dirname(os.path.abspath(sdir)))
+    reuse = os.path.isdir(os.path.join(wt, ".git")) or os.path.isfile(os.path.join(wt, ".git"))
+    if reuse:
+        sh(["git", "checkout", "--", "."], cwd=wt)
+        for f in glob.glob(os.path.join(wt, "tests", "seed_*.rs")):
+            os.remove(f)
+    else:
+        wt = "/tmp/seedcheck-%s" % sid
+        sh("git -C /repo worktree remove --force %s" % wt)
+        rc, o = sh("git -C /repo worktree add --detach %s HEAD" % wt)
+        shutil.copy("/repo/Cargo.lock", wt)
     try:
         rc, o = sh(["git", "apply", "--check", patch], cwd=wt)
         meta["applies"] = rc == 0
@@ -67,7 +75,14 @@ def main():
         meta["ran"].append("cargo test --offline --test <demo>: with change rc %s, without rc %s" % (res_with, res_without))
         meta["confirmed"] = bool(meta["compiles"] and failed == 0 and ok >= 51 and any(v != 0 for v in res_with.values()) and all(v == 0 for v in res_without.values()))
     finally:
-        sh("git -C /repo worktree remove --force %s" % wt)
+        if reuse:
+            sh(["git", "checkout", "--", "."], cwd=wt)
+            for d in demos:
+                f = os.path.join(wt, "tests", os.path.basename(d))
+                if os.path.exists(f):
+                    os.remove(f)
+        else:
+            sh("git -C /repo worktree remove --force %s" % wt)
     # --- 2. our checks against it
     rc, o = sh(["git", "-C", "/repo", "status", "--porcelain", "--untracked-files=no"])
     if o.strip():
